@@ -123,6 +123,11 @@ class C01(Plugin):
         path = f"/r/{rid}" + "".join("/" + rng.choice(self.SEG) for _ in range(rng.randint(0, 3)))
         if rng.random() < 0.1:
             path += "/"
+        root_q = None
+        if rng.random() < 0.06:
+            # root path: the id travels in the header, the body and the query only
+            path = "/"
+            root_q = rng.choice([f"id={rid}", f"id={rid}&tag=q", None])
         hs = [["x-id", str(rid)]] + copy.deepcopy(rng.choice(self.EXTRA))
         if rng.random() < 0.15:
             hs.append(["host", f"custom-{rid}.example"])
@@ -145,7 +150,7 @@ class C01(Plugin):
         if rng.random() < cancel_p:
             cancel = rng.choice([0, 1, 2, 3, 4, 5, 6, 8, 10, 13, 17, 25, 40, 80])
         return {"id": rid, "wave": wave, "origin": origin, "method": method, "ver": ver, "path": path,
-                "query": rng.choice(self.QUERIES), "headers": canon(hs), "blen": blen, "bseed": rng.randrange(1, 1 << 32),
+                "query": root_q if path == "/" else rng.choice(self.QUERIES), "headers": canon(hs), "blen": blen, "bseed": rng.randrange(1, 1 << 32),
                 "chunk": chunk, "byield": byield, "cancel": cancel, "sdelay": rng.choice([0, 0, 0, 1, 3, 7]),
                 "hdelay": rng.choice([0, 0, 1, 2, 5, 20, 101, 103]), "rchunk": rng.choice([0, 0, 1, 50, 1000, 8192]),
                 "ryield": rng.choice([0, 1]), "readmode": rng.choice([0, 0, 1, 2]), "upgrade": upgrade}
